@@ -358,6 +358,8 @@ def run(S):
     la = lock_analysis(S.facts())
     rule_mul(S, la)
     rule_link(S, la)
+    from checks.C08 import rule_move
+    rule_move(S)
     # mechanisms this property rests on (checks/shared.py)
     from checks import shared
     shared.version_word(S)
